@@ -226,6 +226,16 @@ func RunC07(st *simcore.Stream, tier, leg string, logOn bool, res *simcore.Resul
 			// run past the expiry of every session that existed at the restart, to see
 			// whether a stalled Send at least recovers then
 			zsimrt.Sleep(T.Reject + T.KeepAlive + 2*bound)
+			pending := false
+			for _, r := range w.Sends {
+				if !r.Returned {
+					pending = true
+				}
+			}
+			if pending {
+				// a second expiry round (KF5 needs it to tell "late" from "never")
+				zsimrt.Sleep(T.Reject + T.KeepAlive + 2*bound)
+			}
 		case "steady":
 			w.Net.FaultsOff = true
 			w.Sim.ClockWeight = 0
